@@ -183,6 +183,75 @@ func c07(raw json.RawMessage, resp *drv.Response) error {
 			}
 		}
 		return nil
+	case "programs-real":
+		// the same programs compiled with gnark's real builders (R1CS, SCS) and solved with the honest hints: every step's result, reduced,
+		// must be the field's.  A builder manipulates linear expressions, so an operand may be changed behind the caller's back there
+		// although the test engine shows nothing; the fixed programs reuse an unreduced multiply-add result several times.
+		fixed := [][]interface{}{
+			{[]interface{}{"muladdnr", 1.0, 2.0, 3.0}, []interface{}{"add", 1.0, 4.0, 1.0}, []interface{}{"sub", 4.0, 2.0, 1.0}, []interface{}{"muladd", 1.0, 2.0, 4.0}, []interface{}{"add", 3.0, 4.0, 1.0}},
+			{[]interface{}{"mulnr", 1.0, 2.0, 1.0}, []interface{}{"muladd", 3.0, 2.0, 4.0}, []interface{}{"muladd", 1.0, 1.0, 4.0}, []interface{}{"reduce", 4.0, 1.0, 1.0}},
+			{[]interface{}{"addnr", 1.0, 2.0, 1.0}, []interface{}{"muladdnr", 4.0, 3.0, 4.0}, []interface{}{"sub", 5.0, 4.0, 1.0}, []interface{}{"mul", 4.0, 5.0, 1.0}},
+		}
+		progs := append(fixed, req.Programs...)
+		for pi, prog := range progs {
+			var in [3]*big.Int
+			for t := range in {
+				in[t] = drv.RandBelow(rng, bigP)
+				if (pi+t)%4 == 0 {
+					in[t] = glEdge()[rng.Intn(7)]
+				}
+				if pi < len(fixed) {
+					// the fixed programs feed an unreduced result to gadgets that take canonical operands: small inputs keep it canonical
+					in[t] = big.NewInt(int64(2 + rng.Intn(1<<20)))
+				}
+			}
+			ref := []*big.Int{in[0], in[1], in[2]}
+			skip := false
+			for _, st := range prog {
+				s := st.([]interface{})
+				op := s[0].(string)
+				i, j, k := int(s[1].(float64))-1, int(s[2].(float64))-1, int(s[3].(float64))-1
+				if op == "inverse" && ref[i].Sign() == 0 {
+					skip = true // the value returned for zero is unspecified
+					break
+				}
+				ref = append(ref, refOp(op, ref[i], ref[j], ref[k]))
+			}
+			if skip {
+				continue
+			}
+			body := func(api frontend.API, iv []frontend.Variable) []frontend.Variable {
+				chip := gl.New(api)
+				vars := []gl.Variable{gl.NewVariable(iv[0]), gl.NewVariable(iv[1]), gl.NewVariable(iv[2])}
+				var outs []frontend.Variable
+				for _, st := range prog {
+					s := st.([]interface{})
+					op := s[0].(string)
+					i, j, k := int(s[1].(float64))-1, int(s[2].(float64))-1, int(s[3].(float64))-1
+					o, _ := applyOp(chip, op, vars[i], vars[j], vars[k])
+					vars = append(vars, o)
+				}
+				for si, st := range prog { // read (and, for the unreduced variants, reduce) only after the whole program has run
+					op := st.([]interface{})[0].(string)
+					v := vars[3+si]
+					if !reducingOps[op] {
+						v = chip.Reduce(v)
+					}
+					outs = append(outs, v.Limb)
+				}
+				return outs
+			}
+			for _, sys := range []string{"r1cs", "scs"} {
+				stage, err := solveOnBuilder(sys, in[:], ref[3:], body)
+				b, _ := json.Marshal(prog)
+				resp.Count(fmt.Sprintf("real/%s/%s/%v", sys, b, in), false)
+				if err != nil {
+					resp.Violate(fmt.Sprintf("c07/program-real/%s sys=%s", stage, sys),
+						fmt.Sprintf("program %s on %v compiled with the real %s builder: the field's results are not accepted (%s: %s)", b, in, sys, stage, firstLine(err)), map[string]any{"prog": prog, "sys": sys})
+				}
+			}
+		}
+		return nil
 	case "programs":
 		classes := []*big.Int{big.NewInt(0), big.NewInt(1), new(big.Int).Sub(two32, one), two32, pow2(63), new(big.Int).Sub(bigP, two32), new(big.Int).Sub(bigP, one)}
 		for pi, prog := range req.Programs {
